@@ -150,7 +150,7 @@ PROPS['C07'] = {
           'make_credential::AttestedCredentialData::serialize'], kind='gc', bound='aaguid <= 17, credential id <= 3, key <= 3 bytes',
           tier='thorough', timeout=1500),
         H(ROOT + 'c07::c07_k_capacity_frontier', ['ctap2::AuthenticatorData::serialize'], kind='gc',
-          bound='five concrete length splits around 676/677', tier='thorough', timeout=1500),
+          bound='five concrete length splits around 676/677', tier='thorough', timeout=3000),
     ],
     'assumptions': ['A4', 'A6', 'AV', 'AK', 'AS', 'AX'],
     'explanation': 'Unbounded proof over all lengths (incl. credential id 65535/65536), hashes, flags, counters: Verus '
@@ -161,7 +161,7 @@ PROPS['C07'] = {
 
 PROPS['C08'] = {
     'level': 'proof',
-    'verus': ['c18_numeric_tables'],
+    'verus': ['c18_numeric_tables', 'c08_apdu_request'],
     'kani': [
         H(ROOT + 'c08::c08_k_apdu_400', ['impl TryFrom<CommandView> for ctap1::Request'], kind='proof',
           bound=None, note='all APDUs up to 400 bytes; covers every decision boundary'),
@@ -170,13 +170,16 @@ PROPS['C08'] = {
           bound='S = 8'),
         H(ROOT + 'c08::c08_k_owned_command', ['impl TryFrom<&Command<S>> for ctap1::Request'], kind='bounded',
           bound='S = 72', tier='thorough', timeout=1500),
-        H(ROOT + 'c08::c08_k_apdu_65600', ['impl TryFrom<CommandView> for ctap1::Request'], tier='thorough',
-          timeout=3000, note='the whole short + extended APDU domain'),
     ],
-    'assumptions': ['AK', 'AS'],
-    'explanation': 'Complete proof (loop-free harness): every APDU up to 400 bytes (quick) / 65600 bytes = the whole ISO 7816 '
-                   'domain (thorough) parsed by the real CommandView::try_from, result compared with the decision table of '
-                   'the property; borrowed outputs compared by pointer identity.',
+    'assumptions': ['AV', 'AK', 'AS', 'AX'],
+    'explanation': 'Unbounded proof: Verus verifies the real `TryFrom<CommandView> for ctap1::Request` (unit c08_apdu_request) against the '
+                   'decision table of the property for a data field of ANY length (class, instruction, control byte, exact lengths, '
+                   'borrowed windows challenge / application / key handle), including absence of panics at the four `unwrap()` sites. '
+                   'The iso7816 view is a ghost model there; that the view of a raw APDU is its Lc-delimited window and that the '
+                   'U2F instruction bytes reach the parser as Unknown(b) is checked on the real iso7816 code by loop-free Kani '
+                   'harnesses over every APDU up to 400 bytes (every decision boundary in all four length encodings), result compared '
+                   'with the same table, borrowed outputs by pointer identity. (A harness over all APDUs up to 65600 bytes exhausted '
+                   '24 GB in CBMC and was dropped.)',
 }
 
 _D_NOTE = ('Engine D: the effective wire tables are derived from the declarations in /repo/src (extracted by tools/declx on '
@@ -535,3 +538,18 @@ ASSUMPTIONS['A4'] = ('A4 heapless 0.7 / heapless-bytes 0.3 container decoders ac
     'dependency sources for inputs of any length (unit dep_container_decoders: Vec<T, N>::visit_seq, Bytes<N>::visit_bytes, String<N>::visit_str, '
     'String::push_str / from_str) against the contracts of Vec::{new, push, extend_from_slice, capacity}, which are assumed in Verus and validated '
     'on the real heapless code by the Kani harness dep_k_heapless_vec_contract (bounded); serde_bytes and the array impls of serde stay assumed')
+
+
+# Harnesses that were written and calibrated but cannot be discharged in this sandbox (CBMC exceeds the 24 GB address-space limit
+# or one hour, alone on the machine); they stay in /verif/kani for reference and are run by no check.  What they were meant to add is
+# covered deductively elsewhere (named per entry).
+INFEASIBLE = {
+    'gc_k_options_decode_and_unknown': 'text-keyed derived decoder through cbor-smol: CBMC out of memory (24 GB); Engine X checks the generated decoder on the macro expansion, unit c06_cbor_skipper proves the skipper',
+    'gc_k_param_type_capacity': 'text-keyed derived decoder through cbor-smol: no result within the limits; unit dep_container_decoders proves the String<N> / Vec<T, N> decoders',
+    'gc_k_roundtrip_small': 'encode + decode through cbor-smol in one harness: CBMC out of memory (24 GB)',
+    'c02_k_get_next_assertion_like_get_assertion': 'two full get_assertion::Response encodings in one harness: no result within the limits; unit c17_response_serialize proves both arms call the same encoder on the same value',
+    'c02_k_filtered_params_serialize': 'real cbor-smol serializer in the loop: CBMC out of memory (24 GB); the counting mock Serializer harness c03_k_filtered_params_serialize_length covers the hand-written impl',
+}
+for _p in PROPS.values():
+    if _p.get('kani'):
+        _p['kani'] = [h for h in _p['kani'] if h.name.split('::')[-1] not in INFEASIBLE]
